@@ -253,7 +253,8 @@ Qed.
 
 Definition policy_refs_ok (ids names : list Z) (p : policy) : Prop :=
   forallb (fun u => zmem u ids) (p_subset p) = true
-  /\ (negb (p_schema p =? 0) && negb (zmem (p_schema p) names))%bool = false.
+  /\ (negb (p_schema p =? 0) && negb (zmem (p_schema p) names))%bool = false
+  /\ p_rules p = true.
 
 Lemma policies_nil ids names l : forall j,
   validate_policies_from j ids names l = [] -> Forall (policy_refs_ok ids names) l.
@@ -266,7 +267,8 @@ Proof.
          | H : _ ++ _ = [] |- _ => apply app_nil3 in H; destruct H as [? ?]
          end.
   split; [eapply subset_nil; eassumption|].
-  match goal with H : when _ (EPolSchema j) = [] |- _ => apply when_nil in H; exact H end.
+  split; [match goal with H : when _ (EPolSchema j) = [] |- _ => apply when_nil in H; exact H end|].
+  match goal with H : when _ (EPolRules j) = [] |- _ => apply when_nil in H; destruct (p_rules p); [reflexivity|discriminate] end.
 Qed.
 
 Lemma zmem_cons x y l : zmem x (y :: l) = ((x =? y) || zmem x l)%bool.
@@ -288,7 +290,7 @@ Lemma rejects_unknown_reference fixd pick f :
 Proof.
   intros Hb Hv. apply validate_object_nil in Hv. destruct Hv as [_ _ _ _ _ _ _ Hpol].
   apply policies_nil in Hpol. apply existsb_exists in Hb. destruct Hb as (p & Hin & Hp).
-  rewrite Forall_forall in Hpol. destruct (Hpol p Hin) as [Hsub Hsch].
+  rewrite Forall_forall in Hpol. destruct (Hpol p Hin) as (Hsub & Hsch & _).
   unfold unknown_reference in Hp. apply Bool.orb_true_iff in Hp. destruct Hp as [Hp|Hp].
   - apply existsb_exists in Hp. destruct Hp as (u & Hu & Hn).
     rewrite forallb_forall in Hsub. rewrite (Hsub u Hu) in Hn. discriminate.
@@ -340,12 +342,50 @@ Qed.
 Lemma rejects fixd pick f : breaking f = true -> validate_gen fixd pick f <> VErrs [].
 Proof. intros H. apply object_to_admission, rejects_object. exact H. Qed.
 
+(* ---------- an accepted object is usable: every policy resolves ---------- *)
+Lemma dedup_nonempty l : l <> [] -> dedup l <> [].
+Proof.
+  induction l as [|x r IH]; intros H; [congruence|]. simpl.
+  destruct (zmem x r) eqn:Hm; [|discriminate].
+  apply IH. destruct r; [discriminate|discriminate].
+Qed.
+
+Lemma filter_all_true {A} (f : A -> bool) l : forallb f l = true -> filter f l = l.
+Proof.
+  induction l as [|x r IH]; simpl; intros H; [reflexivity|].
+  apply Bool.andb_true_iff in H. destruct H as [Hx Hr]. rewrite Hx, (IH Hr). reflexivity.
+Qed.
+
+Lemma accepted_usable fixd pick f :
+  accepted fixd pick f -> forall2b policy_usable (f_policies f) (map (policy_view f) (f_policies f)) = true.
+Proof.
+  intros [_ Hsrv _ _ _ _ _ Hpol].
+  apply servers_nil in Hsrv. destruct Hsrv as (Hne & _ & _).
+  apply policies_nil in Hpol.
+  induction Hpol as [|p r (Hsub & Hsch & Hrules) _ IH]; simpl; [reflexivity|].
+  rewrite IH, Bool.andb_true_r. unfold policy_view, policy_usable. rewrite Hrules. simpl.
+  assert (Hschema : ((p_schema p =? 0) || negb ((p_schema p =? 0) || negb (zmem (p_schema p) (map s_name (f_schemas f)))))%bool = true).
+  { destruct (p_schema p =? 0) eqn:Hz; [reflexivity|]. simpl in *.
+    apply Bool.negb_false_iff in Hsch. apply names_subset in Hsch. destruct Hsch as [Hs|Hs]; [discriminate|].
+    rewrite Hs. reflexivity. }
+  cbv zeta. rewrite Hschema, Bool.andb_true_r.
+  destruct (p_subset p) as [|u sub] eqn:Hs.
+  - assert (Hd : dedup (map ep_id (f_servers f)) <> []).
+    { apply dedup_nonempty. destruct (f_servers f); [congruence|discriminate]. }
+    destruct (dedup (map ep_id (f_servers f))) as [|d0 dr]; [congruence|]. simpl List.length.
+    apply Z.leb_le. rewrite Nat2Z.inj_succ. pose proof (Nat2Z.is_nonneg (List.length dr)). lia.
+  - simpl in Hsub. apply Bool.andb_true_iff in Hsub. destruct Hsub as [Hu _]. rewrite Hu.
+    simpl List.length. apply Z.leb_le. rewrite Nat2Z.inj_succ.
+    pose proof (Nat2Z.is_nonneg (List.length (filter (fun u0 : Z => zmem u0 (map ep_id (f_servers f))) sub))). lia.
+Qed.
+
 (* ---------- the executable specification holds of the model on every object ---------- *)
 Definition model_obs (pick : bool) (f : facts) : obs :=
   {| o_validate := validate_object code_fix pick f;
      o_admit := admit_of (validate pick f);
      o_admit_gate := match f_gate f with GBad => true | _ => false end;
-     o_create := apply_gateway f; o_ctrl := apply_controller f; o_lim := apply_limiter f |}.
+     o_create := apply_gateway f; o_ctrl := apply_controller f; o_lim := apply_limiter f;
+     o_pols := policy_views f |}.
 
 Lemma model_meets_spec pick f : oracle_laws f = true -> clauses f (model_obs pick f) = [true; true; true].
 Proof.
@@ -357,7 +397,9 @@ Proof.
   { destruct (validate pick f) as [|[|? ?]]; [congruence|reflexivity|reflexivity]. }
   rewrite Hadm. simpl. f_equal. f_equal.
   - destruct (validate pick f) as [|[|e r]] eqn:Hv; simpl; [reflexivity| |reflexivity].
-    destruct (sound pick f Hlaws Hv) as (H1 & _ & _). unfold apply_controller. rewrite H1. reflexivity.
+    destruct (sound pick f Hlaws Hv) as (H1 & _ & _). unfold apply_controller, policy_views. rewrite H1. simpl.
+    unfold validate in Hv. apply validate_nil in Hv. destruct Hv as [Hacc _].
+    apply (accepted_usable _ _ _ Hacc).
   - f_equal. destruct (breaking f) eqn:Hb; [|reflexivity].
     pose proof (rejects code_fix pick f Hb) as Hr. fold (validate pick f) in Hr.
     pose proof (rejects_object code_fix pick f Hb) as Hro. rewrite Hl in Hro.
@@ -668,3 +710,12 @@ Lemma remote_refuted_without_no_limiter_fix :
   Forall spec_ok wit_no_limiter
   /\ some_round_fails {| fx_stale_remote := true; fx_stale_status := true; fx_no_limiter := false |} wit_no_limiter = true.
 Proof. split; [constructor; [reflexivity|constructor; [reflexivity|constructor]]|reflexivity]. Qed.
+
+Lemma sound_usable pick f :
+  oracle_laws f = true -> validate pick f = VErrs [] ->
+  exists l, policy_views f = Some l /\ forall2b policy_usable (f_policies f) l = true.
+Proof.
+  intros Hlaws Hv. destruct (sound pick f Hlaws Hv) as (H1 & _ & _). unfold policy_views. rewrite H1.
+  eexists; split; [reflexivity|].
+  unfold validate in Hv. apply validate_nil in Hv. destruct Hv as [Hacc _]. apply (accepted_usable _ _ _ Hacc).
+Qed.
